@@ -682,5 +682,5 @@ CLAIMS += [
     Claim("c01_byte_list", "C01", "quick", claim_byte_list,
           "parse_byte_list: every element is read by the number scanner, accepted exactly when it is a non-negative integer "
           "<= 255 and stored as that byte; the vector ends only at its closer",
-          "any number of elements (loop cut), arbitrary number-scanner results", configs=("fast",), also=("C02", "C13")),
+          "any number of elements (loop cut), arbitrary number-scanner results", configs=("fast",), also=("C02", "C13", "C04")),
 ]
